@@ -9,6 +9,7 @@ import (
 
 	"verif/mc/core"
 	"verif/mc/tm"
+	"verif/mc/ut"
 )
 
 func init() {
@@ -71,6 +72,9 @@ func runC14(c *core.Ctx, r *core.Result) {
 				for i, n := range tm.Nodes(t.Build()) {
 					refs = append(refs, tm.NamedErr{Name: fmt.Sprintf("copy.node[%d]", i), Err: n})
 				}
+				// typed nil pointers used as type witnesses
+				refs = append(refs, tm.NamedErr{Name: "(*ut.TypeIsLeaf)(nil)", Err: (*ut.TypeIsLeaf)(nil)},
+					tm.NamedErr{Name: "(*ut.PtrLeaf)(nil)", Err: (*ut.PtrLeaf)(nil)})
 				for _, ref := range refs {
 					var stdIs bool
 					if p := tm.Guard(func() { stdIs = goerrors.Is(e, ref.Err) }); p != nil {
@@ -144,7 +148,7 @@ func runC14(c *core.Ctx, r *core.Result) {
 				if allUnwrap && !hasMulti {
 					root := errors.UnwrapAll(e)
 					cur := e
-					for k := 0; k < 64; k++ {
+					for k := 0; k < 4096; k++ {
 						n := goerrors.Unwrap(cur)
 						if n == nil {
 							break
